@@ -46,6 +46,18 @@ func atlasExplore(c *Ctx, o atlasGenOpts, bound int, flagSets []Flags, lib, cli 
 				c.P.Transitions += int64(len(ob.Reqs))
 				c.P.Traces++
 				visit(&r, ob, x.Trace())
+				if repeatedRequest(ob.Reqs) {
+					// the client asked again: enumerate what it can be told the second time
+					c.Count("repeat_expansions", 1)
+					for _, a := range retryMenu[1:] {
+						r2 := r.withRetry(a)
+						ob2 := execAtlasLib(r2, freshDir(base, "run"))
+						c.Eval(1)
+						c.P.Transitions += int64(len(ob2.Reqs))
+						c.P.Traces++
+						visit(r2, ob2, x.Trace())
+					}
+				}
 			}
 			if cli {
 				ob, err := execAtlasCLI(c, &r, freshDir(base, "run"))
@@ -58,6 +70,22 @@ func atlasExplore(c *Ctx, o atlasGenOpts, bound int, flagSets []Flags, lib, cli 
 				c.P.Transitions += int64(len(ob.Reqs))
 				c.P.Traces++
 				visit(&r, ob, x.Trace())
+				if repeatedRequest(ob.Reqs) {
+					c.Count("repeat_expansions", 1)
+					for _, a := range retryMenu[1:] {
+						r2 := r.withRetry(a)
+						ob2, err := execAtlasCLI(c, r2, freshDir(base, "run"))
+						if err != nil {
+							c.HarnessError("atlas CLI run: %v", err)
+							return
+						}
+						c.Eval(1)
+						c.Count("cli_runs", 1)
+						c.P.Transitions += int64(len(ob2.Reqs))
+						c.P.Traces++
+						visit(r2, ob2, x.Trace())
+					}
+				}
 			}
 		}
 	})
@@ -261,6 +289,12 @@ func c17Run(c *Ctx) {
 		mh = 4
 	}
 	atlasExplore(c, atlasGenOpts{MaxHosts: mh, HostNames: 1}, 1, []Flags{{}}, false, true, visit)
+	// the same directory under other spellings of TMPDIR (trailing slash, "/./", "//", through a symbolic link):
+	// the full behaviour tree for up to 2 hosts at both levels
+	for tf := 1; tf < len(tmpForms); tf++ {
+		atlasExplore(c, atlasGenOpts{MaxHosts: 2, HostNames: 1, TmpForm: tf}, b-1, []Flags{{}}, true, false, visit)
+		atlasExplore(c, atlasGenOpts{MaxHosts: 2, HostNames: 1, TmpForm: tf}, 0, []Flags{{}}, false, c.Thorough() || tf == 1, visit)
+	}
 }
 
 // ---------------------------------------------------------------------------------------------- C20
@@ -296,7 +330,7 @@ func c20Run(c *Ctx) {
 				viol("non-digest-credentials:"+q.Auth, fmt.Sprintf("request %d carries credentials that are not a digest response (%s): %s", i, q.Auth, trunc(strings.Join(q.Header["Authorization"], ","), 80)))
 				clean = false
 			}
-			if q.Answer == AnsDigest {
+			if isChallenge(q.Answer) || q.Answer == Ans401Offer {
 				challenged = true
 			} else if q.Auth != "" {
 				challenged = false // one challenge, one answer
